@@ -78,6 +78,11 @@ func Verify(stump Stump, delHashes []Hash, proof Proof) ([]int, error) {
 			"hashes for those targets", len(proof.Targets), len(delHashes))
 	}
 
+	err := checkProofSanity(stump.NumLeaves, proof)
+	if err != nil {
+		return nil, err
+	}
+
 	_, rootCandidates, err := calculateHashes(stump.NumLeaves, delHashes, proof)
 	if err != nil {
 		return nil, err
@@ -100,6 +105,35 @@ func Verify(stump Stump, delHashes []Hash, proof Proof) ([]int, error) {
 	}
 
 	return rootIndexes, nil
+}
+
+// checkProofSanity returns an error if the proof makes claims that a proof from a
+// prover never makes. These would otherwise allow a hash to be proven at a position
+// that it's not at.
+func checkProofSanity(numLeaves uint64, proof Proof) error {
+	totalRows := TreeRows(numLeaves)
+
+	// Every target must be a position that exists and it must only be given once.
+	targets := copySortedFunc(proof.Targets, uint64Cmp)
+	for i, target := range targets {
+		if !inForest(target, numLeaves, totalRows) {
+			return fmt.Errorf("invalid proof. Position %d doesn't exist in a forest with %d leaves",
+				target, numLeaves)
+		}
+		if i > 0 && targets[i-1] == target {
+			return fmt.Errorf("invalid proof. Position %d is given more than once", target)
+		}
+	}
+
+	// An empty hash stands for a deleted node when calculating the hashes. Provers
+	// never give one as they only give the hashes of the nodes that exist.
+	for _, hash := range proof.Proof {
+		if hash == empty {
+			return fmt.Errorf("invalid proof. Empty hash in the proof")
+		}
+	}
+
+	return nil
 }
 
 // del verifies that the passed in proof is correct. Then it calculates the
